@@ -55,11 +55,16 @@ TLV_FUNCS = {
 }
 
 
+# properties whose statements reach the cryptogram-version classes
+CVN_PIDS = {"C08", "C13", "C14", "C15", "C16"}
+
+
 def gen_obligations(pid):
     out = ["Pyemv.ModRefines." + n for n in MOD_FUNCS.get(pid, [])]
     out += ["Pyemv.TlvRefines." + n for n in TLV_FUNCS.get(pid, [])]
-    if pid == "C08":
-        out += json.load(open(os.path.join(LEAN, "obligations.json"))).get("C08_gen", [])
+    if pid in CVN_PIDS:
+        gen = json.load(open(os.path.join(LEAN, "obligations.json"))).get("C08_gen", [])
+        out += gen if pid == "C08" else [n for n in gen if n.endswith("_new") or n.endswith("_row")]
     return out
 
 
@@ -78,7 +83,7 @@ def lake_build(pid):
         jobs = []
         if pid in MOD_FUNCS:
             jobs.append(("translate_py.py", "ModGen.lean", "PyemvGen.ModRefines", "ModRefines"))
-        if pid == "C08":
+        if pid in CVN_PIDS:
             jobs.append(("translate_cvn.py", "CvnGen.lean", "PyemvGen.CvnRefines", "CvnRefines"))
         if pid in TLV_FUNCS:
             jobs.append(("translate_tlv.py", "TlvGen.lean", "PyemvGen.TlvRefines", "TlvRefines"))
@@ -294,7 +299,11 @@ def shared_object_session(ctx):
     buffers for every public function at once."""
     import pyexec
     keep = []
-    for line, proj, want in ctx.replayable:
+    cap = 6000 if ctx.thorough else 700
+    stride = max(1, len(ctx.replayable) // cap)
+    # contiguous runs (neighbouring cases share keys and buffers) rather than isolated picks
+    sample = [x for i, x in enumerate(ctx.replayable) if (i // 25) % stride == 0][:cap]
+    for line, proj, want in sample:
         if len(line) > 20000:
             continue
         try:
@@ -324,9 +333,30 @@ def shared_object_session(ctx):
     ctx.relational["shared-object session: same answers, arguments untouched"] += n
     ctx.evaluations += n
     ctx.extra["shared_object_session"] = {"calls": n, "distinct_objects": len(sh.pool)}
+    # the same calls with read-only buffer views as arguments: the model's answer, or a refusal by TypeError
+    # (a parameter that takes no buffer object) — never another exception class, never another value
+    m = 0; refused = 0
+    with pyexec.view_objects():
+        for line, proj, want in keep[:: max(1, len(keep) // 400)]:
+            try:
+                g = pyexec.py_answer(line)
+            except Exception as e:  # noqa: BLE001
+                g = f"uncaught {type(e).__name__}"
+            m += 1
+            if g.startswith("err TypeError"):
+                refused += 1
+                continue
+            if PROJ[proj](g) != PROJ[proj](want):
+                ctx.violations.append({"kind": "predicate", "predicate": "arguments as read-only buffer views: same answer or TypeError",
+                                       "detail": f"{line[:300]} with memoryview arguments -> {g[:200]}, bytes arguments -> {want[:200]}",
+                                       "op": line})
+                break
+    ctx.relational["buffer-view arguments: same answer or TypeError"] += m
+    ctx.evaluations += m
+    ctx.extra["buffer_view_session"] = {"calls": m, "refused_with_TypeError": refused}
 
 
-INTERPRETER_MODES = [["-O"], ["-OO"], ["-bb"], ["-X", "dev", "-W", "default"], ["-I"], ["-X", "utf8=0"]]
+INTERPRETER_MODES = [["-O"], ["-OO"], ["-bb"], ["byteorder=big"], ["-X", "dev", "-W", "default"], ["-I"], ["-X", "utf8=0"]]
 
 
 def interpreter_modes(ctx):
@@ -335,7 +365,7 @@ def interpreter_modes(ctx):
     answered there and compared with the model's answers."""
     import pyexec
     keep = []
-    for line, proj, want in ctx.replayable[:: max(1, len(ctx.replayable) // 400)]:
+    for line, proj, want in ctx.replayable[:: max(1, len(ctx.replayable) // (400 if ctx.thorough else 180))]:
         if len(line) > 8000:
             continue
         try:
@@ -368,22 +398,31 @@ def interpreter_modes(ctx):
     env = dict(os.environ, PYEMV_REPO=core.REPO)
     env.pop("PYTHONOPTIMIZE", None)
     n = 0
-    modes = INTERPRETER_MODES if ctx.thorough else INTERPRETER_MODES[:3]
+    modes = INTERPRETER_MODES if ctx.thorough else INTERPRETER_MODES[:4]
     for flags in modes:
-        r = subprocess.run([sys.executable] + flags + [os.path.join(core.HERE, "modeprobe.py")], input=text, env=env,
+        env2 = dict(env); pyflags = flags; txt = text; kp = keep
+        if flags == ["byteorder=big"]:
+            # a host of the other byte order, simulated: sys.byteorder is what the library consults. `tools.xor` with
+            # operands of different lengths is byte-order dependent on the pinned code as well and is left out.
+            env2["VERIF_BYTEORDER"] = "big"; pyflags = []
+            kp = [k for k in keep if not (k[0].startswith("tools.xor ") and len(k[0].split()[1]) != len(k[0].split()[2]))]
+            txt = "\n".join(k[0] for k in kp) + "\n"
+            if not kp:
+                continue
+        r = subprocess.run([sys.executable] + pyflags + [os.path.join(core.HERE, "modeprobe.py")], input=txt, env=env2,
                            stdout=subprocess.PIPE, stderr=subprocess.PIPE, text=True, timeout=600)
         out = r.stdout.split("\n")
-        if r.returncode != 0 or len(out) < len(keep):
+        if r.returncode != 0 or len(out) < len(kp):
             ctx.violations.append({"kind": "predicate", "predicate": "the library runs under interpreter flags " + " ".join(flags),
-                                   "detail": f"child interpreter exited {r.returncode} after {len(out) - 1} of {len(keep)} answers: {r.stderr.strip()[-300:]}",
+                                   "detail": f"child interpreter exited {r.returncode} after {len(out) - 1} of {len(kp)} answers: {r.stderr.strip()[-300:]}",
                                    "op": "interpreter mode " + " ".join(flags)})
             continue
-        for (line, proj, want), g in zip(keep, out):
+        for (line, proj, want), g in zip(kp, out):
             n += 1
             if PROJ[proj](g) != PROJ[proj](want):
                 ctx.violations.append({"kind": "predicate", "predicate": "same answers under interpreter flags " + " ".join(flags),
                                        "detail": f"python {' '.join(flags)}: {line[:300]} -> {g[:200]}, expected {want[:200]}",
-                                       "op": line, "note": "reproduce: echo '<op>' | PYEMV_REPO=/repo /venv/bin/python " + " ".join(flags) + " harness/modeprobe.py"})
+                                       "op": line, "note": "reproduce: echo '<op>' | PYEMV_REPO=/repo " + ("VERIF_BYTEORDER=big /venv/bin/python" if flags == ["byteorder=big"] else "/venv/bin/python " + " ".join(flags)) + " harness/modeprobe.py"})
                 break
     ctx.relational["interpreter modes: same answers"] += n
     ctx.evaluations += n
@@ -477,9 +516,11 @@ def main():
         reach_on = reach.start(core.REPO)
         try:
             try:
-                fn(ctx)
-                shared_object_session(ctx)
-                interpreter_modes(ctx)
+                t_a = time.time(); fn(ctx)
+                t_b = time.time(); shared_object_session(ctx)
+                t_c = time.time(); interpreter_modes(ctx)
+                ctx.extra["phase_s"] = {"property_cases": round(t_b - t_a, 1), "shared_object_session": round(t_c - t_b, 1),
+                                        "interpreter_modes": round(time.time() - t_c, 1)}
                 if proof_problems and not ctx.violations and tier == "quick":
                     # a proof obligation or the translation no longer checks and the quick search found no failing
                     # input: spend the thorough tier's case counts, under another seed, before giving up
